@@ -71,7 +71,7 @@ def dumpModel (r : Regs) : String :=
     let f := BigInt.ofInt a.val
     showOrdC (BigInt.cmp a f) ++ showBool (BigInt.eq a f) ++ showBool (BigInt.hashInput a == BigInt.hashInput f)
       ++ showBool (BigInt.intoParts a == BigInt.intoParts f))
-  s!"U {us} I {is_} P {pu}|{pi_} F {fu}|{fi}"
+  s!"U {us} I {is_} P {pu};{pi_} F {fu};{fi}"
 
 def dumpSpec (s : SRegs) : String :=
   let us := " ".intercalate (s.u.map fun v => showLimbs (ofNat v))
@@ -82,7 +82,7 @@ def dumpSpec (s : SRegs) : String :=
     showOrdC (compare a b) ++ showBool (a == b) ++ showBool (a == b))
   let fu := String.join (s.u.map fun _ => "=111")
   let fi := String.join (s.i.map fun _ => "=111")
-  s!"U {us} I {is_} P {pu}|{pi_} F {fu}|{fi}"
+  s!"U {us} I {is_} P {pu};{pi_} F {fu};{fi}"
 
 /-- run the op tokens; `!` is a checkpoint (dump the state here as well) -/
 def runTokens (nu ni : Nat) : List String → Regs → SRegs → List String → List String → Option (List String × List String)
